@@ -69,6 +69,8 @@ OPTIONS = {
     'cys-none': ['-cys', 'none'],
     'martini22': ['-ff', 'martini22', '-elastic'],
     'merge': ['-merge', 'A,B'],
+    'bonds-name': ['-bonds-from', 'name'],
+    'bonds-fudge1': ['-bonds-fudge', '1.0'],
     'merge-all-elastic': ['-merge', 'all', '-elastic'],
 }
 
@@ -420,12 +422,14 @@ def bind_driver(name):
 def run(ctx):
     if ctx.quick:
         inputs = ['tri-ala', 'ala5', 'ala1-zwitterion', 'bta15-18', 'bta38-41', 'villin52-55', 'bpti-ss', 'bta-two-chains', 'ala5-altloc']
-        optsets = {'bta-two-chains': ['default', 'merge'], 'ala5-altloc': ['default'], 'tri-ala': ['default', 'posres', 'ss', 'nt'], 'ala5': ['elastic', 'nt'], 'ala1-zwitterion': ['default'], 'bta15-18': ['elastic', 'martini22'], 'bta38-41': ['elastic', 'cys-none'],
+        optsets = {'bta-two-chains': ['default', 'merge'], 'ala5-altloc': ['default'], 'tri-ala': ['default', 'posres', 'ss', 'nt', 'bonds-name'], 'ala5': ['elastic', 'nt'], 'ala1-zwitterion': ['default'], 'bta15-18': ['elastic', 'martini22'], 'bta38-41': ['elastic', 'cys-none', 'bonds-fudge1'],
                    'villin52-55': ['elastic'], 'bpti-ss': ['elastic', 'cys-none']}
         seeds = [0, 1, 2, 3 + ctx.seed % 50]
     else:
         inputs = list(FRAGMENTS)
-        optsets = {name: [o for o in OPTIONS if not o.startswith('merge')] for name in inputs}
+        optsets = {name: [o for o in OPTIONS if not o.startswith('merge') and not o.startswith('bonds')] for name in inputs}
+        optsets['tri-ala'] += ['bonds-name']
+        optsets['bta38-41'] += ['bonds-fudge1', 'bonds-name']
         optsets['ala1-zwitterion'] = ['default', 'elastic']
         optsets['bta-two-chains'] = ['default', 'elastic', 'merge', 'merge-all-elastic', 'nt']
         optsets['ala5-altloc'] = ['default', 'elastic']
